@@ -9,6 +9,7 @@ package main
 
 import (
 	"bytes"
+	"encoding/json"
 	"fmt"
 	"go/ast"
 	"go/token"
@@ -154,6 +155,159 @@ func applyMutant(m Mutant) ([]byte, error) {
 	b.WriteString(m.Repl)
 	b.Write(src[m.End:])
 	return b.Bytes(), nil
+}
+
+// runMutantChildAll: like runMutantChild but evaluates every registered property (global matrix).
+func runMutantChildAll(repo, verif string, m Mutant) {
+	src, err := applyMutant(m)
+	if err != nil {
+		fmt.Println("MUTANT error", err)
+		return
+	}
+	p, err := Load(LoadOpts{Repo: repo, Controls: verif + "/checker/controls", Overlay: map[string][]byte{m.File: src}})
+	if err != nil {
+		fmt.Println("MUTANT compile-error")
+		return
+	}
+	known, _ := loadKnown(verif + "/known_findings.json")
+	var hits []string
+	for _, id := range allProps {
+		ps := registry[id]
+		if ps == nil {
+			continue
+		}
+		r := NewReporter(ps.ID, "quick", 0)
+		c := &Ctx{P: p, R: r, Tier: "quick", Verif: verif}
+		func() {
+			defer func() {
+				if e := recover(); e != nil {
+					r.Fail("engine-panic", "-", fmt.Sprint(e), fmt.Sprint(e))
+				}
+			}()
+			ps.Run(c)
+		}()
+		kk := map[string]bool{}
+		for _, e := range known.Entries {
+			if e.Status == "known" && e.Property == ps.ID {
+				kk[e.Key] = true
+			}
+		}
+		n := 0
+		for _, f := range r.Findings {
+			if isCtlFunc(f.Func) || kk[f.Key()] {
+				continue
+			}
+			n++
+		}
+		if n > 0 {
+			hits = append(hits, fmt.Sprintf("%s:%d", id, n))
+		}
+	}
+	if len(hits) == 0 {
+		fmt.Println("MUTANT survived")
+		return
+	}
+	fmt.Printf("MUTANT killed %d %s\n", len(hits), strings.Join(hits, ","))
+}
+
+// RunGlobalMatrix: mutants over every function any property has a non-trivial obligation in, judged by all properties.
+func RunGlobalMatrix(repo, verif string, seed int) int {
+	p, err := Load(LoadOpts{Repo: repo, Controls: verif + "/checker/controls"})
+	if err != nil {
+		fmt.Println("load:", err)
+		return 2
+	}
+	funcs := map[string]bool{}
+	var ctx *Ctx
+	for _, id := range allProps {
+		ps := registry[id]
+		if ps == nil {
+			continue
+		}
+		r := NewReporter(id, "quick", seed)
+		c := &Ctx{P: p, R: r, Tier: "quick", Verif: verif}
+		ps.Run(c)
+		for _, o := range r.Obls {
+			if !o.Ctl && !isCtlFunc(o.Func) && o.Nontrivial {
+				funcs[o.Func] = true
+				funcs[rootFunc(o.Func)] = true
+			}
+		}
+		ctx = c
+	}
+	muts := genMutants(ctx, funcs)
+	total := len(muts)
+	limit := 1500
+	if s := os.Getenv("VERIF_MUTANTS"); s != "" {
+		if v, err := strconv.Atoi(s); err == nil {
+			limit = v
+		}
+	}
+	rng := rand.New(rand.NewSource(int64(seed) + 7))
+	rng.Shuffle(len(muts), func(i, j int) { muts[i], muts[j] = muts[j], muts[i] })
+	if len(muts) > limit {
+		muts = muts[:limit]
+	}
+	workers := runtime.NumCPU() - 4
+	if workers > 10 {
+		workers = 10
+	}
+	if workers < 2 {
+		workers = 2
+	}
+	var wg sync.WaitGroup
+	ch := make(chan int)
+	for w := 0; w < workers; w++ {
+		wg.Add(1)
+		go func() {
+			defer wg.Done()
+			for i := range ch {
+				m := muts[i]
+				cmd := exec.Command(os.Args[0], "-repo", repo, "-verif", verif, "-prop", "ALL", "-mutant-child",
+					"-mutant-file", m.File, "-mutant-start", fmt.Sprint(m.Start), "-mutant-end", fmt.Sprint(m.End), "-mutant-repl", m.Repl)
+				out, _ := cmd.CombinedOutput()
+				res := "error"
+				for _, l := range strings.Split(string(out), "\n") {
+					if strings.HasPrefix(l, "MUTANT ") {
+						res = strings.TrimPrefix(l, "MUTANT ")
+					}
+				}
+				muts[i].Res = res
+			}
+		}()
+	}
+	for i := range muts {
+		ch <- i
+	}
+	close(ch)
+	wg.Wait()
+	comp, killed := 0, 0
+	var survivors []Mutant
+	for _, m := range muts {
+		if strings.HasPrefix(m.Res, "compile-error") || strings.HasPrefix(m.Res, "error") {
+			continue
+		}
+		comp++
+		mm := m
+		mm.File = relTo(repo, m.File)
+		if strings.HasPrefix(m.Res, "killed") {
+			killed++
+		} else {
+			survivors = append(survivors, mm)
+		}
+	}
+	sort.Slice(survivors, func(i, j int) bool {
+		if survivors[i].File != survivors[j].File {
+			return survivors[i].File < survivors[j].File
+		}
+		return survivors[i].Line < survivors[j].Line
+	})
+	out := map[string]any{"generated": total, "run": len(muts), "compilable": comp, "reported_by_some_property": killed, "survivors": survivors, "seed": seed}
+	b, _ := json.MarshalIndent(out, "", " ")
+	os.MkdirAll(verif+"/matrix", 0o755)
+	os.WriteFile(verif+"/matrix/global.json", b, 0o644)
+	fmt.Printf("global matrix: %d generated, %d run, %d type-check, %d reported by at least one property, %d survivors -> matrix/global.json\n", total, len(muts), comp, killed, len(survivors))
+	return 0
 }
 
 // runMutantChild: executed in a child process; prints exactly one MUTANT line.
